@@ -3,7 +3,7 @@
 
 use parity_db::{CompressionType, Db};
 use pv::{
-	dbutil::{self, col, multitree_col, DbCfg, Step},
+	dbutil::{self, col, multitree_col, DbCfg, Nest, Step},
 	gen,
 	model::{ChildSpec, Model, Op, TreeSpec},
 	tree::{TreeAccess, TreeModel},
@@ -15,6 +15,9 @@ use std::collections::{BTreeMap, BTreeSet};
 pub enum Act {
 	Commit(Vec<Op>),
 	Step(Step),
+	/// outer step with the steps of OTHER workers run inside it at a hand-over site
+	/// (`dbutil::do_step_nested`): a deterministic two-worker interleaving
+	Nested(Step, Nest),
 	Restart,
 }
 
@@ -23,6 +26,7 @@ impl Act {
 		match self {
 			Act::Commit(tx) => format!("commit [{}]", tx.iter().map(|o| o.show()).collect::<Vec<_>>().join(", ")),
 			Act::Step(s) => s.name().to_string(),
+			Act::Nested(s, n) => format!("{}{}", s.name(), n.show()),
 			Act::Restart => "restart (drop + open)".to_string(),
 		}
 	}
@@ -159,9 +163,19 @@ pub fn gen_plan(rng: &mut Rng, variant: u64, tier: Tier, only_commit_and_log_tai
 	// files, the first one applied and reclaimed, its file reused for a NEWER record while the
 	// older file is still pending - so that file-id order differs from record order when both
 	// are finally reclaimed by one clean_logs.
-	let mut script: Vec<u8> = if variant % 3 == 2 && !only_commit_and_log_tail {
+	// flavour of the history: 0 plain, 1 scripted two-worker windows, 2 scripted log recycling,
+	// 3 random two-worker windows (the layout kind is variant % 8; this walks all four flavours
+	// for every kind whatever the shard count)
+	let flavour = if only_commit_and_log_tail { if variant % 3 == 2 { 2 } else { 0 } } else { ((variant / 8) + (variant / 16)) % 4 };
+	let nested = flavour == 1 || flavour == 3;
+	let mut script: Vec<u8> = if flavour == 2 {
 		// 0 commit, 1 process, 3 flush, 4 enact_one, 5 enact_all, 6 clean
 		vec![0, 1, 3, 0, 1, 3, 4, 4, 6, 0, 1, 3, 5, 6, 0, 1, 3, 0, 1, 3, 4, 6, 0, 1, 3, 5, 6]
+	} else if flavour == 1 {
+		// scripted two-worker windows: (20) the commit stage finishes a further log between the
+		// cleanup stage's flush and its truncation; (21) a record is written and synced while an
+		// earlier one is half applied; (22) logs are reclaimed while a record is half applied
+		vec![0, 1, 3, 5, 0, 1, 3, 20, 0, 1, 3, 0, 21, 5, 6, 0, 1, 3, 0, 1, 3, 5, 0, 1, 3, 22, 6]
 	} else {
 		vec![]
 	};
@@ -258,15 +272,26 @@ pub fn gen_plan(rng: &mut Rng, variant: u64, tier: Tier, only_commit_and_log_tai
 				acts.push(Act::Commit(tx));
 				queued += 1;
 			},
-			1 => {
-				acts.push(Act::Step(Step::ProcessCommits));
-				queued = queued.saturating_sub(1);
+			20 => acts.push(Act::Nested(Step::CleanLogs, Nest { site: dbutil::site::BEFORE_CLEAN, hit: 1, inner: vec![Step::EnactAll] })),
+			21 => acts.push(Act::Nested(Step::EnactAll, Nest { site: dbutil::site::ENACT_ACTION, hit: 2, inner: vec![Step::ProcessCommits, Step::FlushLogs] })),
+			22 => acts.push(Act::Nested(Step::EnactAll, Nest { site: dbutil::site::ENACT_ACTION, hit: 2, inner: vec![Step::CleanLogs] })),
+			1..=6 => {
+				let st = match choice {
+					1 => Step::ProcessCommits,
+					2 => Step::ProcessReindex,
+					3 => Step::FlushLogs,
+					4 => Step::EnactOne,
+					5 => Step::EnactAll,
+					_ => Step::CleanLogs,
+				};
+				if choice == 1 {
+					queued = queued.saturating_sub(1);
+				}
+				match if nested && rng.chance(1, 4) { dbutil::random_nest(rng, st) } else { None } {
+					Some(n) => acts.push(Act::Nested(st, n)),
+					None => acts.push(Act::Step(st)),
+				}
 			},
-			2 => acts.push(Act::Step(Step::ProcessReindex)),
-			3 => acts.push(Act::Step(Step::FlushLogs)),
-			4 => acts.push(Act::Step(Step::EnactOne)),
-			5 => acts.push(Act::Step(Step::EnactAll)),
-			6 => acts.push(Act::Step(Step::CleanLogs)),
 			_ => {
 				acts.push(Act::Restart);
 				queued = 0;
@@ -400,6 +425,26 @@ pub fn record(plan: &Plan, dir: &std::path::Path) -> Result<Recorded, String> {
 				}
 				if *s == Step::FlushLogs {
 					synced = logged;
+				}
+				rec.acts.push(act.clone());
+			},
+			Act::Nested(s, n) => {
+				let (r, out) = dbutil::do_step_nested(d, *s, n);
+				r.map_err(|e| format!("{} failed without fault injection: {}", act.show(), e))?;
+				if let Some(e) = out.inner_err {
+					return Err(format!("inner step of {} failed without fault injection: {}", act.show(), e))
+				}
+				if out.fired {
+					rec.notes.push("nested_fired".into());
+				}
+				let after = d.verif_status();
+				// commits written to the log by the outer and inner steps together
+				let logged_before = logged;
+				logged += before.queued_commits.saturating_sub(after.queued_commits);
+				// any flush inside the act synced at least what had been logged before the act
+				let flushed = *s == Step::FlushLogs || (out.fired && n.inner.contains(&Step::FlushLogs));
+				if flushed {
+					synced = synced.max(logged_before);
 				}
 				rec.acts.push(act.clone());
 			},
